@@ -7,7 +7,7 @@ CONSTANTS
   MaxClock = 4
   Limit <- Limit_Sim
   Ops = {"create", "createfault", "attr", "data", "time", "link", "delete"}
-  Faults = {"DuplicateName", "BadName", "NoneType", "WrongKind", "ForeignBlock", "NotMember", "Required", "NotFound"}
+  Faults = {"DuplicateName", "BadName", "NoneType", "WrongKind", "ForeignBlock", "NotMember", "Required", "NotFound", "BadLinkType"}
   Script <- NoScript
   CopyKeep = {}
 VIEW View
